@@ -74,6 +74,8 @@ pub struct Cfg {
     /// reset the k-th client stream after writing this many bytes (0 = never)
     pub reset_stream: i64,
     pub reset_after: u64,
+    /// the server answers every token-less Initial with a Retry (address validation)
+    pub retry: bool,
     pub reset_delay_ms: u64,
     /// server sends STOP_SENDING on the k-th accepted receive side after reading that many bytes
     pub stop_stream: i64,
@@ -149,6 +151,7 @@ impl Default for Cfg {
             read_delay_ms: 0,
             reset_stream: -1,
             reset_after: 0,
+            retry: false,
             reset_delay_ms: 0,
             stop_stream: -1,
             stop_after: 0,
@@ -249,6 +252,7 @@ impl Cfg {
                 "read_delay_ms" => c.read_delay_ms = n()?,
                 "reset_stream" => c.reset_stream = n()? as i64,
                 "reset_after" => c.reset_after = n()?,
+                "retry" => c.retry = n()? != 0,
                 "reset_delay_ms" => c.reset_delay_ms = n()?,
                 "stop_stream" => c.stop_stream = n()? as i64,
                 "stop_after" => c.stop_after = n()?,
